@@ -2,7 +2,6 @@ package vh
 
 import (
 	"encoding/json"
-	"flag"
 	"fmt"
 	"reflect"
 
@@ -22,6 +21,8 @@ const (
 type FlowCase struct {
 	Depth int   `json:"depth"`
 	Beh   []int `json:"beh"`
+	// Policy: error handling policy of the application (0 ContinueOnError, 1 ExitOnError, 2 PanicOnError)
+	Policy int `json:"policy,omitempty"`
 	// extras (rapid part): sibling commands and a command below the addressed one, all with hooks that must never run
 	Siblings bool `json:"siblings,omitempty"`
 	Below    bool `json:"below,omitempty"`
@@ -39,6 +40,12 @@ type panicMarker struct{ idx int }
 // exactly this method): it is still an ordinary panic value, not a request to exit.
 func (m *panicMarker) ExitCode() int { return 3 }
 
+// panicErrMarker is a panic value that implements error (what a hook panicking with an error, or a runtime error,
+// raises): "any other panic value is re-raised unchanged" includes those, under every error policy.
+type panicErrMarker struct{ idx int }
+
+func (m *panicErrMarker) Error() string { return fmt.Sprintf("hook %d failed", m.idx) }
+
 // exitCodeOf is the status hook idx exits with: mostly 100+idx, but every third hook uses Exit(0) - "exit with status 0"
 // is an exit like any other and must not be confused with "no exit requested".
 func exitCodeOf(idx int) int {
@@ -55,7 +62,7 @@ func flowRun(c *FlowCase) (log []string, end string, strayPanic interface{}) {
 	var out Outcome
 	var app *cli.Cli
 	var argv []string
-	markers := map[*panicMarker]bool{} // every marker value a hook of this plan may raise (initializers can run more than once)
+	markers := map[interface{}]bool{} // every marker value a hook of this plan may raise (initializers can run more than once)
 	mk0 := func(name string, b int, idx int) func() {
 		switch b {
 		case HAbsent:
@@ -63,6 +70,11 @@ func flowRun(c *FlowCase) (log []string, end string, strayPanic interface{}) {
 		case HReturns:
 			return func() { log = append(log, name) }
 		case HPanics:
+			if idx%2 == 1 {
+				m := &panicErrMarker{idx}
+				markers[m] = true
+				return func() { log = append(log, name); panic(m) }
+			}
 			m := &panicMarker{idx}
 			markers[m] = true
 			return func() { log = append(log, name); panic(m) }
@@ -85,7 +97,7 @@ func flowRun(c *FlowCase) (log []string, end string, strayPanic interface{}) {
 	never := func(name string) func() { return func() { log = append(log, "NEVER:"+name) } }
 	WithSwapExit(&out, func(code int) { log = append(log, fmt.Sprintf("EXIT(%d)", code)) }, func() {
 		app = cli.App("app", "")
-		app.ErrorHandling = flag.ContinueOnError
+		app.ErrorHandling = policies[c.Policy%3] // a valid invocation: the error policy must not matter
 		argv = []string{"app"}
 		var conf func(cmd *cli.Cmd, lvl int)
 		conf = func(cmd *cli.Cmd, lvl int) {
@@ -134,12 +146,15 @@ func flowRun(c *FlowCase) (log []string, end string, strayPanic interface{}) {
 	return
 }
 
-func flowEnd(out *Outcome, end string, markers map[*panicMarker]bool) string {
+func flowEnd(out *Outcome, end string, markers map[interface{}]bool) string {
 	switch {
 	case out.Exit != nil:
 		return fmt.Sprintf("exit(%d)x%d", *out.Exit, out.Exits)
 	case out.PanicVal != nil:
 		if m, ok := out.PanicVal.(*panicMarker); ok && markers[m] {
+			return fmt.Sprintf("panic(P%d)", m.idx)
+		}
+		if m, ok := out.PanicVal.(*panicErrMarker); ok && markers[m] {
 			return fmt.Sprintf("panic(P%d)", m.idx)
 		}
 		return "panic(other)"
@@ -206,6 +221,13 @@ func CheckC05(c *FlowCase) (v *Violation, claimed bool, faulty bool) {
 	d := c.Depth
 	if len(c.Beh) != 2*d+3 {
 		return Violf("malformed plan"), false, false
+	}
+	if c.Beh[d+1] == HAbsent {
+		// the addressed command has no Action: the library prints its help and then follows the error policy (exit 2, or
+		// panic(nil)); that is another contract - the weak invariants below are checked under ContinueOnError only
+		cc := *c
+		cc.Policy = 0
+		c = &cc
 	}
 	gl, ge, stray := flowRun(c)
 	if stray != nil {
